@@ -121,23 +121,27 @@ def coreCase (c : Case) : String :=
   | .ok prog =>
     match Core.fromAst prog with
     | none => s!"{c.id}\tcore\tnotcore\t0\t0\t0\t"
-    | some body =>
+    | some (params, body) =>
       match Asm.load c.asm c.args with
       | .error e => s!"{c.id}\tcore\tasmerror:{e.replace "\t" " "}\t0\t0\t0\t"
       | .ok l =>
+        -- the arguments as the assembler reads them (base-10 integers)
+        match c.args.mapM Asm.parseIntArg with
+        | .error e => s!"{c.id}\tcore\tasmerror:{e}\t0\t0\t0\t"
+        | .ok args =>
         let cf : Core.Config := { w := optNat "w" 2, stackWords := optNat "stackwords" 0, checked := !c.opts.contains "unchecked" }
-        let m := Core.coreProg cf body
-        let i := Core.coreInit cf body
+        let m := Core.coreProg cf params body
+        let i := Core.coreInit cf args body
         let firstDiff : Option Nat := (List.range (max m.code.size l.prog.code.size)).find? (fun k => m.code[k]? != l.prog.code[k]?)
         let verdict :=
-          if !(Core.wfS [] body && Core.youLevel body) then "diff:not-well-formed"
+          if !(Core.wfS params body && Core.youLevel body && params.Nodup && args.length == params.length) then "diff:not-well-formed"
           else if m.w != l.prog.w then "diff:word-size"
           else if let some k := firstDiff then s!"diff:code@{k}:model={repr (m.code[k]?)}:real={repr (l.prog.code[k]?)}".replace "\n" " "
           else if m.const.data != l.prog.const.data then "diff:const"
           else if i.pc != l.init.pc then "diff:entry"
           else if i.mem.data != l.init.mem.data then s!"diff:state:model={i.mem.data.size}:real={l.init.mem.data.size}"
           else "ok"
-        let tr := match Core.runCore cf.w c.fuel body with
+        let tr := match Core.runCore cf.w c.fuel params args body with
           | none => "fuel"
           | some evs => VM.renderTrace evs.toArray
         s!"{c.id}\tcore\t{verdict}\t{m.code.size}\t0\t0\t{tr}"
